@@ -11,6 +11,7 @@ import (
 	"context"
 	"encoding/json"
 	"fmt"
+	"math"
 	"reflect"
 	"sort"
 	"strings"
@@ -209,7 +210,7 @@ func (w *world) same(got *eventbus.StoredEvent, want entry, checkOffset bool) st
 	return ""
 }
 
-func limits() []int { return []int{-1, 0, 1, 2, 3} }
+func limits() []int { return []int{-1, 0, 1, 2, 3, math.MaxInt32, math.MaxInt64 - 1, math.MaxInt64} }
 
 func limClass(n int) string {
 	if n <= 0 {
@@ -737,6 +738,66 @@ func (ci *cinst) Check(res *vrt.Result) []vrt.Violation {
 	return vs
 }
 
+// sqinst: two tasks append to one SQLite store concurrently (each store call is an atomic
+// step for the scheduler; atomics and locks inside the store are scheduling points). After
+// quiescence every resumed read must agree with the full read.
+type sqinst struct {
+	st  string
+	out []string
+}
+
+func (q *sqinst) Body() {
+	med, err := stores.NewMedium("sqlite")
+	if err != nil {
+		panic(err)
+	}
+	defer med.Destroy()
+	hd, err := med.Open()
+	if err != nil {
+		panic(err)
+	}
+	defer hd.Close()
+	for a := 0; a < 2; a++ {
+		a := a
+		vrt.Go(func() {
+			hd.Store.Append(bg, &eventbus.Event{Type: "t", Data: json.RawMessage(fmt.Sprintf(`{"n":%d}`, a)), Timestamp: time.Unix(int64(a+1), 0).UTC()})
+		})
+	}
+	vrt.Join()
+	all, _, err := hd.Store.Read(bg, eventbus.OffsetOldest, 0)
+	if err != nil || len(all) != 2 {
+		q.out = append(q.out, fmt.Sprintf("two concurrent appends: the log holds %d events (err %v)", len(all), err))
+		return
+	}
+	for i, e := range all {
+		rest, _, err := hd.Store.Read(bg, e.Offset, 0)
+		if err != nil || len(rest) != len(all)-i-1 {
+			q.out = append(q.out, "after two concurrent appends a read resumed from an event's offset does not return the events after it")
+		}
+		n := 0
+		for _, serr := range hd.Stream.ReadStream(bg, e.Offset) {
+			if serr == nil {
+				n++
+			}
+		}
+		if n != len(all)-i-1 {
+			q.out = append(q.out, "after two concurrent appends a stream resumed from an event's offset does not return the events after it")
+		}
+	}
+	if !(all[0].Offset < all[1].Offset) && len(all[0].Offset) == len(all[1].Offset) {
+		q.out = append(q.out, "two concurrent appends: offsets not increasing in log order")
+	}
+}
+func (q *sqinst) Outcome() string { return q.st + fmt.Sprint(q.out) }
+func (q *sqinst) Check(res *vrt.Result) []vrt.Violation {
+	q.st = res.Status.String()
+	vs := vrt.StatusViolations("sqlite concurrent appenders", res)
+	for _, m := range q.out {
+		vs = append(vs, vrt.Violation{Kind: "concurrent-append", Sig: "store=sqlite concurrent Append: " + m, Detail: m})
+	}
+	return vs
+}
+
 func schedScenarios(thorough bool) []vrt.Scenario {
 	shapes := [][2]int{{2, 1}, {2, 2}}
 	if thorough {
@@ -747,6 +808,7 @@ func schedScenarios(thorough bool) []vrt.Scenario {
 		s := s
 		l = append(l, vrt.Scenario{Name: fmt.Sprintf("memory-appenders-%dx%d", s[0], s[1]), New: func() vrt.Instance { return &cinst{appenders: s[0], per: s[1]} }})
 	}
+	l = append(l, vrt.Scenario{Name: "sqlite-appenders-2x1", New: func() vrt.Instance { return &sqinst{} }})
 	return l
 }
 
